@@ -723,3 +723,66 @@ def rule_A9(ctx, rid='A9'):
                        'poison the estimate' % (unparse(st)[:50], m, ', '.join(users),
                                                 ' / '.join(sorted(kinds)), attr))
     return n
+
+
+# ---------------------------------------------------------------------------
+# L3b blobs returned by the likelihood are stored on every path
+# ---------------------------------------------------------------------------
+
+def rule_L3b(ctx, rid='L3'):
+    ctx.rule(rid, 'returned blobs are stored: in add_samples, wherever the batch evaluation '
+             'returned blobs, every path to the exit stores them into self.blobs (first batch: '
+             'creation of the list; later: extension of the shell\'s rows)')
+    f = ctx.program.func('Sampler.add_samples')
+    cfg = cfg_of(f)
+    names = _likelihood_result_names(f)
+    if not names:
+        ctx.note('L3b not decided: result of evaluate_likelihood not found')
+        return 0
+    bname = names[-1]
+    stores = set()
+    for n in cfg.nodes:
+        if n.kind != 'stmt' or n.ast is None:
+            continue
+        st = n.ast
+        tgt_ok = False
+        if isinstance(st, ast.Assign):
+            for t in st.targets:
+                b = t
+                while isinstance(b, ast.Subscript):
+                    b = b.value
+                if dotted(b) == '%s.blobs' % f.self_name:
+                    tgt_ok = True
+        elif isinstance(st, ast.Expr) and isinstance(st.value, ast.Call) and \
+                isinstance(st.value.func, ast.Attribute) and \
+                st.value.func.attr in ('append', 'extend'):
+            b = st.value.func.value
+            while isinstance(b, ast.Subscript):
+                b = b.value
+            if dotted(b) == '%s.blobs' % f.self_name:
+                tgt_ok = True
+        if tgt_ok and any(isinstance(x, ast.Name) and x.id == bname for x in ast.walk(st)):
+            stores.add(n.id)
+    tests = [t for t in cfg.nodes if t.kind == 'test' and t.expr is not None and any(
+        tx == '%s is not None' % bname or tx == '%s is None' % bname
+        for _, tx, _ in __import__('nvstat.cfg', fromlist=['edge_facts']).edge_facts(t.expr, True))]
+    n = 0
+    from .cfg import edge_facts
+    for t in tests:
+        for s_, lab in t.succ:
+            if lab not in (True, False):
+                continue
+            present = any((tx == '%s is not None' % bname and tr) or
+                          (tx == '%s is None' % bname and not tr)
+                          for _, tx, tr in edge_facts(t.expr, lab))
+            if not present:
+                continue
+            ok = bool(stores) and (s_ in stores or cfg.must_pass(s_, cfg.exit.id, stores)
+                                   if s_ != cfg.exit.id else False)
+            n += 1
+            ctx.ob(rid, 'Sampler.add_samples:returned-blobs-stored', ok, f.where(t.ast),
+                   'every path on which the likelihood returned blobs stores them' if ok else
+                   'a path on which the likelihood returned blobs reaches the end of '
+                   'add_samples without storing them: the blobs of that batch are lost and the '
+                   'blob rows no longer line up with the points')
+    return n
